@@ -206,6 +206,9 @@ def r3_checkpoint_whole_table(ctx):
 
 
 def run(ctx):
+    # E-stale (rules/stale.py): no snapshot of a self field is written back after a call that may have changed it
+    from . import stale
+    stale.rule_stale(ctx, "C17.R6", "cascette_client_storage", r"src/lru/", floor=3)
     # E-dirty (rules/dirtyflag.py): every dirty flag found in the crate whose saver lives in this property's modules
     from . import dirtyflag
     dirtyflag.rule_dirty(ctx, "C17.R5", ["cascette_client_storage"], file_pat=r"src/lru/", floor=0)
@@ -218,4 +221,4 @@ def run(ctx):
 
 
 from .selftest import for_families as _ff  # noqa: E402
-selftest = _ff(['gate', 'dirty'])
+selftest = _ff(['gate', 'dirty', 'stale'])
